@@ -4,7 +4,6 @@ import (
 	"encoding/json"
 	"fmt"
 	"math/rand"
-	"strings"
 	"time"
 
 	"src.elv.sh/pkg/eval/vals"
@@ -58,40 +57,27 @@ func leafPair(a, b *valpool.Term) string {
 
 func (s *session) hashPairs(b *valpool.Builder) error {
 	c := s.c
-	r, err := c.TLC("GenPairs", lib.TLCRun{Dir: s.dir, Module: "GenPairs", Workers: 2, Timeout: 10 * time.Minute})
+	r, err := c.TLC("EmitPool", lib.TLCRun{Dir: s.dir, Module: "EmitPool", Workers: 1, Timeout: 10 * time.Minute})
 	if err != nil {
 		return err
 	}
 	if r.ErrKind != "" {
-		return lib.Infra("GenPairs: %s %s", r.ErrKind, r.ErrName)
+		return lib.Infra("EmitPool: %s %s", r.ErrKind, r.ErrName)
 	}
 	pool := map[int]*valpool.Term{}
-	specEq := map[[2]int]bool{}
 	for _, line := range r.PrintedStrings() {
-		if strings.HasPrefix(line, `{"pool"`) {
-			var p struct {
-				Pool int           `json:"pool"`
-				Term *valpool.Term `json:"term"`
-			}
-			if err := json.Unmarshal([]byte(line), &p); err != nil {
-				return lib.Infra("bad pool line: %v", err)
-			}
-			pool[p.Pool] = p.Term
-			continue
+		var p struct {
+			Pool int           `json:"pool"`
+			Term *valpool.Term `json:"term"`
 		}
-		var e struct {
-			A  int  `json:"a"`
-			B  int  `json:"b"`
-			Eq bool `json:"eq"`
+		if err := json.Unmarshal([]byte(line), &p); err != nil || p.Term == nil {
+			return lib.Infra("bad pool line: %v: %s", err, line)
 		}
-		if err := json.Unmarshal([]byte(line), &e); err != nil {
-			return lib.Infra("bad pair line: %v", err)
-		}
-		specEq[[2]int{e.A, e.B}] = e.Eq
+		pool[p.Pool] = p.Term
 	}
 	n := len(pool)
-	if n == 0 || len(specEq) != n*n {
-		return lib.Infra("GenPairs: %d pool values, %d pairs", n, len(specEq))
+	if n < 50 {
+		return lib.Infra("EmitPool printed %d values", n)
 	}
 	nv := valpool.GoVariants + valpool.CodeVariants
 	vs := make([][]any, n+1)
@@ -123,20 +109,19 @@ func (s *session) hashPairs(b *valpool.Builder) error {
 	b2i := map[bool]int{false: 0, true: 1}
 	for i := 1; i <= n; i++ {
 		for j := 1; j <= n; j++ {
+			// pairs the real eq reports equal are the ones that matter: they get more constructions
 			combos := 1
-			if specEq[[2]int{i, j}] {
-				combos = c.Pick(8, nv*nv) // eq pairs are the ones that matter: more constructions
+			if vals.Equal(vs[i][0], vs[j][0]) {
+				combos = c.Pick(8, nv*nv)
 			}
 			for k := 0; k < combos; k++ {
 				va, vb := c.Rand.Intn(nv), c.Rand.Intn(nv)
 				if combos == nv*nv {
 					va, vb = k/nv, k%nv
 				}
-				rec(vs[i][va], vs[j][vb], b2i[specEq[[2]int{i, j}]], fmt.Sprintf("%s#%d", pool[i].Name(), va), fmt.Sprintf("%s#%d", pool[j].Name(), vb), leafPair(pool[i], pool[j]))
+				rec(vs[i][va], vs[j][vb], -1, fmt.Sprintf("%s#%d", pool[i].Name(), va), fmt.Sprintf("%s#%d", pool[j].Name(), vb), leafPair(pool[i], pool[j]))
 			}
-			if specEq[[2]int{i, j}] || i != j {
-				c.Distinct("hash|" + pool[i].Name() + "|" + pool[j].Name())
-			}
+			c.Distinct("hash|" + pool[i].Name() + "|" + pool[j].Name())
 		}
 	}
 	// class representatives
